@@ -73,8 +73,17 @@ def run(ctx, replay):
                                cfg_text=MC_CFG % dict(devs="", layer="string", strlen=n_str,
                                                       gen="TRUE" if n_str == n_rows else "FALSE",
                                                       inv="StringLaws Emit"))
-        ctx.cov["states"] = ra["distinct"] + rs["distinct"]
-        ctx.cov["transitions"] = ra["generated"] + rs["generated"]
+        # comparison of arbitrary strings (malformed operands included): all pairs, look-alike triples
+        rp = ctx.tlc_expect_ok("Address", None, name="mc-string2", workers=8, timeout=600,
+                               cfg_text=MC_CFG % dict(devs="", layer="string2", strlen=2, gen="TRUE",
+                                                      inv="CompareLaws EmitOrbit Emit"))
+        strs2 = [v for tag, v in rp["printed"] if tag == "ROW"]
+        orbit = next((v for tag, v in rp["printed"] if tag == "ORBIT"), None)
+        if orbit is None or len(strs2) != rp["distinct"]:
+            raise vlib.Infra("string2 run printed %d rows for %d states, orbit=%s" % (len(strs2), rp["distinct"], orbit))
+        ctx.cov["states"] = ra["distinct"] + rs["distinct"] + rp["distinct"]
+        ctx.cov["transitions"] = ra["generated"] + rs["generated"] + rp["generated"]
+        ctx.cov["states_string2"] = rp["distinct"]
         ctx.cov["states_algebra"] = ra["distinct"]
         ctx.cov["states_string"] = rs["distinct"]
         ctx.cov["string_len_model_checked"] = n_str
@@ -136,7 +145,39 @@ def run(ctx, replay):
             else:
                 cl = by_id[rng.choice(classes)]
                 triples.append((rng.choice(cl), rng.choice(cl), rng.choice(cl)))
+        # arbitrary strings: every pair of look-alikes (same length, letters a case-insensitive
+        # comparison could confuse), every pair of strings up to one symbol, other pairs sampled
+        strs2.sort(key=lambda x: (len(x), x))
+        def alike(x, y):
+            return len(x) == len(y) and all(orbit[a] == orbit[b] for a, b in zip(x, y))
+        short = [x for x in strs2 if len(x) <= 1]
+        spairs = [(x, y) for x in strs2 for y in strs2 if alike(x, y)]
+        seen_p = set(json.dumps(p) for p in spairs)
+        for x in short:
+            for y in short:
+                if json.dumps((x, y)) not in seen_p:
+                    seen_p.add(json.dumps((x, y)))
+                    spairs.append((x, y))
+        if thorough:
+            spairs += [(x, y) for x in strs2 for y in strs2 if json.dumps((x, y)) not in seen_p]
+        else:
+            spairs += [(rng.choice(strs2), rng.choice(strs2)) for _ in range(1500)]
+        alikes = {}
+        for x in strs2:
+            alikes.setdefault((len(x),) + tuple(orbit[a] for a in x), []).append(x)
+        striples = [(x, y, z) for cl in alikes.values() if len(cl[0]) <= 1 for x in cl for y in cl for z in cl]
+        big = [cl for cl in alikes.values() if len(cl[0]) == 2]
+        if thorough:
+            striples += [(x, y, z) for cl in big for x in cl for y in cl for z in cl]
+        else:
+            for _ in range(1500):
+                cl = rng.choice(big)
+                striples.append((rng.choice(cl), rng.choice(cl), rng.choice(cl)))
         cases = []
+        for x, y in spairs:
+            cases.append({"kind": "P2", "in": {"s": x, "t": y}})
+        for x, y, z in striples:
+            cases.append({"kind": "P3", "in": {"s": x, "t": y, "u": z}})
         for a in addrs:
             cases.append({"kind": "A1", "in": {"a": a}})
         for a, b in pairs:
@@ -223,6 +264,9 @@ def run(ctx, replay):
         if c["kind"] == "S":
             if len(c["in"]["s"]) >= 2:
                 distinct.add(json.dumps(c["in"]["s"]))
+        elif c["kind"] in ("P2", "P3"):
+            if len(set(json.dumps(v) for v in c["in"].values())) > 1:
+                distinct.add(json.dumps(c["in"], sort_keys=True))
         elif any(variant(c["in"][k]) for k in c["in"]):
             distinct.add(json.dumps(c["in"], sort_keys=True))
     ctx.cov["distinct_nontrivial"] = len(distinct)
@@ -231,10 +275,12 @@ def run(ctx, replay):
                        "A2 = ordered pairs inside one identity class (all in thorough, seeded sample in quick) plus "
                        "random cross pairs; A3 = seeded triples (3/4 inside one class); S = every symbol string up "
                        "to length 3 (quick) / 4 (thorough) printed by TLC plus TLC -simulate strings up to length 6; "
+                       "P2/P3 = pairs/triples of arbitrary strings up to 2 symbols over the comparison alphabet "
+                       "(all look-alike pairs, all pairs up to 1 symbol, the rest sampled in quick / all in thorough); "
                        "non-trivial = an address row with at least one non-canonical spelling, a string row of "
                        "length >= 2; distinct = distinct inputs")
     picks = []
-    for kind in ("A1", "A2", "A3", "S"):
+    for kind in ("A1", "A2", "A3", "S", "P2", "P3"):
         evs = [e for e in events if e["e"] == kind and e["t"] < 9000000]
         if evs:
             picks.append(evs[len(evs) // 3])
@@ -246,6 +292,10 @@ def run(ctx, replay):
         "the model knows only the spellings of its table (5 label bases, 4 local-part bases, 1 tld); laws about "
         "valid addresses are evaluated on these generated addresses only, crash-freedom on every row",
         "outputs are abstracted back to (base, spelling) through the inverse table, which is checked to be injective",
+        "reading of the statement: 'comparison is an equivalence relation that coincides with equality of lookup "
+        "keys' carries no restriction to valid addresses and is evaluated on arbitrary (also malformed) strings "
+        "(rows P2/P3: Equal symmetric, transitive, Equal <=> the values ForLookup returns are equal; same for "
+        "dns.Equal/dns.ForLookup); idempotence, one key per identity and round trips only on generated valid addresses",
         "TLC 1.8.0, CommunityModules Json",
     ]
 
